@@ -97,6 +97,16 @@ def c14_queries(tier):
     return qs
 
 
+def c13_queries(tier):
+    qs = []
+    for cls in range(12):
+        for use_clear in (0, 1):
+            qs.append(Query("cpp-wipe:%s:%s" % (CLSN[cls], "clear" if use_clear else "destructor"), "harness/C13/cpp_wipe.c", extra_srcs=["harness/common/ir_env.c"],
+                            backend="c64", with_backend=False, with_spec=False, gen_srcs=[gen_cpp, gen_adp], defs={"CLS": cls, "USE_CLEAR": use_clear},
+                            shape={"class": CLSN[cls], "operation": "clear()" if use_clear else "destructor", "ir": "clang -O2 whole-module"}, unwind=300, timeout=600))
+    return qs
+
+
 def gen_ba(stl, which=0):
     def g(run_dir, q):
         srcs = [os.path.join(vlib.VERIF, "harness/C20/ba_wrap.cpp")] + ([] if stl else ["src/cplusplus/ascon-byte-array.cpp"])
